@@ -108,9 +108,15 @@ impl BuildOptimiser {
     }
 
     pub fn build(&self) -> MCOptimiser {
+        // The temperature is reduced once per inner loop, so the factor which takes kt_start to
+        // kt_finish over the run is the loops-th root of their ratio.
+        let inner_steps = u64::max(1, u64::min(self.inner_steps, self.steps));
+        let loops = u64::max(1, self.steps / inner_steps);
         let kt_ratio = match (self.kt_ratio, self.kt_finish) {
             (Some(ratio), _) => 1. - ratio,
-            (None, Some(finish)) => f64::powf(finish / self.kt_start, 1. / self.steps as f64),
+            // A temperature of zero stays zero, there is no finite factor away from it
+            (None, Some(_)) if self.kt_start == 0. => 1.,
+            (None, Some(finish)) => f64::powf(finish / self.kt_start, 1. / loops as f64),
             (None, None) => 0.1,
         };
         debug!("Setting kt_ratio to: {}", kt_ratio);
